@@ -158,6 +158,8 @@ def freeze(v, depth=0):
 
 
 DATA_SCALE = [1.0]  # largest magnitude on the caller heap of the current run
+EXTRA_ATOL = [0.0]  # additional absolute allowance for one comparison (see compare_lanes)
+SCALE_ATOL = [1e-9]  # absolute allowance as a fraction of the largest entry compared
 
 
 def same(a, b, rtol=1e-7, path=""):
@@ -176,7 +178,7 @@ def same(a, b, rtol=1e-7, path=""):
             if not np.array_equal(np.isfinite(af), np.isfinite(bf)):
                 return f"{path}: finite pattern differs"
             scale = float(np.max(np.abs(bf[fin]))) if np.any(fin) else 1.0
-            if np.any(fin) and not np.allclose(af[fin], bf[fin], rtol=rtol, atol=1e-9 * scale + 1e-12 * max(DATA_SCALE[0], DATA_SCALE[0] ** 2)):
+            if np.any(fin) and not np.allclose(af[fin], bf[fin], rtol=rtol, atol=SCALE_ATOL[0] * scale + 1e-12 * max(DATA_SCALE[0], DATA_SCALE[0] ** 2) + EXTRA_ATOL[0]):
                 return f"{path}: max abs diff {float(np.max(np.abs(af[fin] - bf[fin]))):.3g} (scale {scale:.3g})"
             return None
         if a.dtype == object or b.dtype == object:
@@ -937,6 +939,16 @@ class PurityWorld:
             self.count("restart_not_picklable")
             self.log.add("RESTART", name, "raise", type(e).__name__)
 
+    def _single_precision_fit(self, m):
+        """Was the last fit of this object given float32 data?"""
+        try:
+            for v in m["fits"][-1]["args"].values():
+                if isinstance(v, dict) and "$h" in v and self.heap.pristine(v["$h"]).dtype == np.float32:
+                    return True
+        except Exception:  # noqa: BLE001
+            pass
+        return False
+
     # ---- clause 4: repeatability under a moving environment
     def compare_lanes(self):
         groups = {}
@@ -953,6 +965,37 @@ class PurityWorld:
                 a, b = public_state(self.objs[base]), public_state(self.objs[other])
                 kind = ma["kind"]
                 skip = set(ma.get("repeat_skip", []))
+                EXTRA_ATOL[0] = 0.0
+                rtol = 1e-6
+                if self._single_precision_fit(ma):
+                    # single-precision data is kept in single precision by the library
+                    # (eps 1.2e-7): two executions that differ in the ARPACK start vector /
+                    # update branch agree to ~eps32 x conditioning, not to 1e-6
+                    rtol, SCALE_ATOL[0] = 1e-3, 1e-3
+                    self.count("repeat_pairs_in_single_precision")
+                if kind == "sample.VoronoiFPS" and any(
+                    o["op"] == "NEW" and o["obj"] in (base, other) and o["params"].get("full_fraction") is None
+                    for o in self.trace["ops"]
+                ):
+                    # The switching point was left to the timing calibration, which C06
+                    # explicitly lets depend on the clock: the two repetitions may update the
+                    # distance table through different branches (all distances recomputed vs.
+                    # only the active cells'). What must agree is the selection and the table
+                    # to rounding; new_dist_ is the scratch array of the last update (true
+                    # distances to the last pick on one branch, a copy of the table with the
+                    # active entries replaced on the other) and is not a result. The same
+                    # distance computed by the two branches differs by the rounding allowance
+                    # of the formula |x|^2+|s|^2-2x.s in the working precision (C06's tau).
+                    skip.add("new_dist_")
+                    try:
+                        Xp = self.heap.pristine(ma["fits"][-1]["args"]["X"]["$h"])
+                        from .refmodels import fps_tau
+
+                        epsr = float(np.finfo(Xp.dtype).eps / np.finfo(float).eps) if Xp.dtype.kind == "f" else 1.0
+                        EXTRA_ATOL[0] = fps_tau(np.asarray(Xp, dtype=float)) * epsr
+                    except Exception:  # noqa: BLE001
+                        EXTRA_ATOL[0] = 0.0
+                    self.count("voronoi_calibrated_lanes_compared_modulo_update_branch")
                 if set(a) != set(b):
                     self.violate("repeat_differs", kind, f"attributes {sorted(set(a) ^ set(b))} exist in one repetition only")
                     continue
@@ -960,14 +1003,16 @@ class PurityWorld:
                 for k in sorted(a):
                     if k in skip:
                         continue
-                    bad = same(a[k], b[k], rtol=1e-6, path=k)
+                    bad = same(a[k], b[k], rtol=rtol, path=k)
                     if bad:
                         break
                 if bad is None:
                     for tag in sorted(set(ma["reads"]) & set(mb["reads"])):
-                        bad = same(ma["reads"][tag], mb["reads"][tag], rtol=1e-6, path=tag + "()")
+                        bad = same(ma["reads"][tag], mb["reads"][tag], rtol=rtol, path=tag + "()")
                         if bad:
                             break
+                EXTRA_ATOL[0] = 0.0
+                SCALE_ATOL[0] = 1e-9
                 if bad:
                     self.violate(
                         "repeat_differs",
